@@ -834,8 +834,17 @@ class RTDCBase(abc.ABC):
         """
         basins = []
         bc = feat_basin.get_basin_classes()
+        bdicts = [dict(bd) for bd in self.basins_get_dicts()]
+        for bd in bdicts:
+            if "key" not in bd:
+                # Basin definitions that do not come from an HDF5 file
+                # (e.g. the DCOR API) may lack a key. Derive one from the
+                # definition, so that cyclic dependencies are detected.
+                bd["key"] = hashlib.md5(
+                    repr(sorted(bd.items(), key=lambda kv: kv[0])
+                         ).encode("utf-8")).hexdigest()
         # Sort basins according to priority
-        bdicts_srt = sorted(self.basins_get_dicts(),
+        bdicts_srt = sorted(bdicts,
                             key=feat_basin.basin_priority_sorted_key)
         bd_keys = [bd["key"] for bd in bdicts_srt if "key" in bd]
         bd_keys += self._basins_ignored
